@@ -265,7 +265,15 @@ inline void install_death_dump(std::string const& path)
     detail::cur_path() = path;
     if (&__sanitizer_set_death_callback) __sanitizer_set_death_callback(&detail::dump_current);
     std::signal(SIGABRT, &detail::on_signal);
-#if !defined(__SANITIZE_ADDRESS__) && !(defined(__has_feature) && __has_feature(address_sanitizer))
+#if defined(__has_feature)
+#if __has_feature(address_sanitizer)
+#define VERIF_HAS_ASAN 1
+#endif
+#endif
+#if defined(__SANITIZE_ADDRESS__)
+#define VERIF_HAS_ASAN 1
+#endif
+#if !defined(VERIF_HAS_ASAN)
     std::signal(SIGSEGV, &detail::on_signal);
     std::signal(SIGBUS, &detail::on_signal);
     std::signal(SIGFPE, &detail::on_signal);
